@@ -310,3 +310,78 @@ Proof.
   apply alloc_bounded_bind; [apply ab_dec_n, ab_dec_suballoc|]. intro locked.
   cbv zeta. destruct (alloc_valid _); constructor.
 Qed.
+
+(* ---- allocation bounds for the remaining decoders ---- *)
+Ltac abt :=
+  repeat match goal with
+         | |- alloc_bounded _ (bind (dec_uint _) _) => apply ab_any_uint_then; intro
+         | |- alloc_bounded _ (bind (dec_fixed _) _) => apply ab_fixed_then; intro
+         | |- alloc_bounded _ (bind _ _) => apply alloc_bounded_bind; [|intro]
+         | |- alloc_bounded _ (Ret _) => constructor
+         | |- alloc_bounded _ Fail => constructor
+         | |- alloc_bounded _ (if ?c then _ else _) => destruct c
+         | |- alloc_bounded _ (match ?x with _ => _ end) => destruct x
+         | |- alloc_bounded _ (dec_n _ _) => apply ab_dec_n
+         | |- alloc_bounded _ _ => solve [auto with ab]
+         end.
+#[export] Hint Resolve ab_dec_bigint ab_dec_u16 ab_dec_suballoc ab_dec_balances ab_dec_marsh ab_dec_asset ab_dec_alloc : ab.
+Lemma ab_dec_uint k : ab (dec_uint k). Proof. constructor. intros; constructor. Qed.
+Lemma ab_dec_fixed n : ab (dec_fixed n). Proof. constructor. intros; constructor. Qed.
+Lemma ab_dec_bool : ab dec_bool. Proof. constructor. intros; constructor. Qed.
+Lemma ab_dec_i32 : ab dec_i32. Proof. constructor. intros; constructor. Qed.
+Lemma ab_dec_u8 : ab dec_u8. Proof. apply ab_dec_uint. Qed.
+Lemma ab_dec_u32 : ab dec_u32. Proof. apply ab_dec_uint. Qed.
+Lemma ab_dec_u64 : ab dec_u64. Proof. apply ab_dec_uint. Qed.
+#[export] Hint Resolve ab_dec_uint ab_dec_fixed ab_dec_bool ab_dec_i32 ab_dec_u8 ab_dec_u32 ab_dec_u64 : ab.
+Lemma ab_dec_string : ab dec_string.
+Proof.
+  unfold dec_string. apply ab_uint_then; [lia|]. intros l Hl.
+  constructor; [unfold alloc_limit; lia|]. constructor. intros; constructor.
+Qed.
+#[export] Hint Resolve ab_dec_string : ab.
+Lemma ab_dec_many {A} l (d : prog A) : ab d -> ab (dec_many l d).
+Proof. intro H. unfold dec_many. abt. Qed.
+Lemma ab_dec_optapp rs : ab (dec_optapp rs). Proof. unfold dec_optapp. abt. Qed.
+Lemma ab_dec_data k : ab (dec_data k). Proof. unfold dec_data. abt. Qed.
+#[export] Hint Resolve ab_dec_optapp ab_dec_data : ab.
+Lemma ab_dec_state rs : ab (dec_state rs). Proof. unfold dec_state. abt. Qed.
+#[export] Hint Resolve ab_dec_state : ab.
+Lemma ab_dec_waddr_entry : ab dec_waddr_entry. Proof. unfold dec_waddr_entry. abt. Qed.
+Lemma ab_dec_raddr_entry : ab dec_raddr_entry. Proof. unfold dec_raddr_entry. abt. Qed.
+#[export] Hint Resolve ab_dec_waddr_entry ab_dec_raddr_entry : ab.
+Lemma ab_dec_wamap : ab dec_wamap. Proof. unfold dec_wamap. abt. apply ab_dec_many. auto with ab. Qed.
+Lemma ab_dec_ramap : ab dec_ramap. Proof. unfold dec_ramap. abt. apply ab_dec_many. auto with ab. Qed.
+#[export] Hint Resolve ab_dec_wamap ab_dec_ramap : ab.
+Lemma ab_dec_wamaps : ab dec_wamaps. Proof. unfold dec_wamaps. abt. apply ab_dec_many. auto with ab. Qed.
+Lemma ab_dec_ramaps : ab dec_ramaps. Proof. unfold dec_ramaps. abt. apply ab_dec_many. auto with ab. Qed.
+#[export] Hint Resolve ab_dec_wamaps ab_dec_ramaps : ab.
+Lemma ab_dec_sig_slots bits : ab (dec_sig_slots bits).
+Proof. induction bits as [|[|] r IH]; cbn [dec_sig_slots]; abt; exact IH. Qed.
+#[export] Hint Resolve ab_dec_sig_slots : ab.
+Lemma ab_dec_sigs n : ab (dec_sigs n). Proof. unfold dec_sigs. abt. Qed.
+#[export] Hint Resolve ab_dec_sigs : ab.
+Lemma ab_dec_tx rs : ab (dec_tx rs). Proof. unfold dec_tx. abt. Qed.
+Lemma ab_dec_params rs : ab (dec_params rs). Proof. unfold dec_params. abt. Qed.
+#[export] Hint Resolve ab_dec_tx ab_dec_params : ab.
+Lemma ab_u16_counted {A} (d : prog A) : ab d ->
+  ab (l <- dec_u16 ;; Alloc l (dec_n (N.to_nat l) d)).
+Proof.
+  intro H. apply ab_uint_then; [lia|]. intros l Hl.
+  constructor; [unfold alloc_limit; lia|]. apply ab_dec_n. exact H.
+Qed.
+Lemma ab_dec_ids : ab dec_ids. Proof. unfold dec_ids. apply ab_u16_counted. auto with ab. Qed.
+Lemma ab_dec_imap : ab dec_imap. Proof. unfold dec_imap. apply ab_u16_counted. auto with ab. Qed.
+#[export] Hint Resolve ab_dec_ids ab_dec_imap : ab.
+Lemma ab_dec_imaps : ab dec_imaps. Proof. unfold dec_imaps. apply ab_u16_counted. auto with ab. Qed.
+Lemma ab_dec_baseprop rs : ab (dec_baseprop rs). Proof. unfold dec_baseprop. abt. Qed.
+Lemma ab_dec_update rs : ab (dec_update rs). Proof. unfold dec_update. abt. Qed.
+#[export] Hint Resolve ab_dec_imaps ab_dec_baseprop ab_dec_update : ab.
+
+(* every message type except AuthResponse (type 3, whose signature length is a uint32 without a
+   documented limit) requests only bounded allocations *)
+Lemma ab_dec_msg_body rs t : t <> 3 -> ab (dec_msg_body rs t).
+Proof.
+  intro Ht. unfold dec_msg_body.
+  destruct (N.eqb_spec t 3) as [E|_]; [contradiction|].
+  abt.
+Qed.
